@@ -1,10 +1,12 @@
 #!/bin/sh
-# tools/run_seeded.sh [tier] [ID ...] : each seeded change against the check of its own property
+# tools/run_seeded.sh [tier] [SEED ...] : each seeded change against the check of its own property
+# (seed directory names are <ID> or R2-<ID>; the property is the trailing C.. part)
 cd "$(dirname "$0")/.."
 TIER="${1:-quick}"; [ $# -gt 0 ] && shift
-IDS="$*"; [ -z "$IDS" ] && IDS=$(ls seeded)
-for id in $IDS; do
-    [ -f seeded/$id/patch.diff ] || continue
-    r=$(tools/try_mutation.sh seeded/$id/patch.diff "$TIER" "$id" 2>&1 | grep -E "^C[0-9]+ exit|DETECTED_BY")
-    echo "seed $id -> $(echo "$r" | tr '\n' ' ' | cut -c1-420)"
+SEEDS="$*"; [ -z "$SEEDS" ] && SEEDS=$(ls seeded)
+for sd in $SEEDS; do
+    [ -f seeded/$sd/patch.diff ] || continue
+    id=$(echo "$sd" | sed 's/^R2-//')
+    r=$(tools/try_mutation.sh seeded/$sd/patch.diff "$TIER" "$id" 2>&1 | grep -E "^C[0-9]+ exit|DETECTED_BY")
+    echo "seed $sd -> $(echo "$r" | tr '\n' ' ' | cut -c1-420)"
 done
